@@ -44,9 +44,11 @@ Agree(p) ==
        /\ d.rep = Err(E_MULTI) /\ d.s = FullS
        /\ sb.rep = Err(E_MULTI) /\ sb.s = FullS
 
-Init == pat \in AllPats
-Next == UNCHANGED pat
+\* (the patterns are reached in one step from a dummy initial state: TLC evaluates invariants of initial
+\*  states on its main thread, whose stack is too small for the recursion over the depth-4 store)
+Init == pat = <<"~init~">>
+Next == pat = <<"~init~">> /\ pat' \in AllPats
 Spec == Init /\ [][Next]_pat
-C04Inv == Agree(pat)
+C04Inv == pat = <<"~init~">> \/ Agree(pat)
 MC_Meaning == <<>>
 =============================================================================
